@@ -87,10 +87,13 @@ def Acc.copyWithin (m : Mode) (a : Acc) (indexRowMut : Nat → Res Win) (buf : L
   if ¬ br.2 ≤ numRows then throw .panic
   let cols ← usub m br.1 tl.1
   let rows ← usub m br.2 tl.2
-  let x ← uadd m dest.1 cols
-  if ¬ x ≤ numCols then throw .panic
-  let y ← uadd m dest.2 rows
-  if ¬ y ≤ numRows then throw .panic
+  -- post-fix: `assert!(dest.0 <= num_cols && cols <= num_cols - dest.0)` (short-circuit `&&`)
+  if ¬ dest.1 ≤ numCols then throw .panic
+  let roomC ← usub m numCols dest.1
+  if ¬ cols ≤ roomC then throw .panic
+  if ¬ dest.2 ≤ numRows then throw .panic
+  let roomR ← usub m numRows dest.2
+  if ¬ rows ≤ roomR then throw .panic
   let rs := (List.range (br.2 - tl.2)).map (tl.2 + ·)       -- top_left.1..bottom_right.1
   if tl.2 < dest.2 then do
     let off ← usub m dest.2 tl.2
